@@ -54,16 +54,32 @@ def main():
     rcs = run_shards([BIN, "c06record", "-seed", str(SEED), "-n", str(n), "-dir", outdir], base_env, os.path.join(outdir, "record"), wd)
     if any(rcs):
         inconclusive.append("a recording worker exited with %s" % [r for r in rcs if r])
-    # B: fresh processes, different scheduler/GC settings, interleaved non-consensus calls
+    # B: fresh processes, different scheduler/GC settings, interleaved non-consensus calls, and a wall clock shifted by
+    # ~98 days (binary built with a Go -overlay that adds $JKVERIF_TIME_SHIFT seconds inside time.Now)
     envB = dict(base_env, GOMAXPROCS="2", GOGC="1")
-    rcs = run_shards([BIN, "c06replay", "-seed", str(SEED), "-n", str(n), "-dir", outdir, "-suffix", "B", "-interleave", "0.4"], envB, os.path.join(outdir, "replayB"), wd)
+    binB = BIN
+    clock_shift = False
+    go_env = dict(base_env, GOFLAGS="-mod=mod", GOPROXY="off", GOSUMDB="off", GOTOOLCHAIN="local")
+    ov = subprocess.run([os.path.join(ROOT, "tools", "mkoverlay.sh")], env=go_env, stdout=subprocess.PIPE, stderr=subprocess.STDOUT, text=True)
+    if ov.returncode == 0:
+        shiftbin = BIN + ".shift"
+        p = subprocess.run(["go", "build", "-tags", "verif", "-overlay", os.path.join(ROOT, "bin", "overlay", "overlay.json"), "-o", shiftbin, "./cmd/jkverif"],
+                           cwd=os.path.join(ROOT, "harness"), env=go_env, stdout=subprocess.PIPE, stderr=subprocess.STDOUT, text=True)
+        if p.returncode == 0:
+            binB = shiftbin
+            clock_shift = True
+            envB["JKVERIF_TIME_SHIFT"] = "8467261"
+        else:
+            print("NOTE: clock-shifted replay binary could not be built, process B runs with the normal clock: " + p.stdout[-300:])
+    else:
+        print("NOTE: time.Now overlay could not be prepared, process B runs with the normal clock: " + ov.stdout[-300:])
+    rcs = run_shards([binB, "c06replay", "-seed", str(SEED), "-n", str(n), "-dir", outdir, "-suffix", "B", "-interleave", "0.4"], envB, os.path.join(outdir, "replayB"), wd)
     if any(rcs):
         inconclusive.append("a replay-B worker exited with %s" % [r for r in rcs if r])
     suffixes = ["B"]
     races = {"canine": [], "dependency": 0, "total": 0}
     if TIER == "thorough":
         # C: race detector build
-        go_env = dict(base_env, GOFLAGS="-mod=mod", GOPROXY="off", GOSUMDB="off", GOTOOLCHAIN="local")
         racebin = BIN + ".race"
         p = subprocess.run(["go", "build", "-tags", "verif", "-race", "-o", racebin, "./cmd/jkverif"], cwd=os.path.join(ROOT, "harness"), env=go_env,
                            stdout=subprocess.PIPE, stderr=subprocess.STDOUT, text=True)
@@ -144,12 +160,13 @@ def main():
             "evaluations": evaluations,
             "distinct_nontrivial": len(nontriv),
             "rule": "history = one generated workload (dedicated generator X06 maximising provers / gauges / access-map ids / form shuffles per block, plus the generators of C01 C03 C04 C05 C07 C10 C12 C14 C17 C18 in record-only mode) recorded as genesis + headers + signed tx bytes; "
-                    "evaluation = one re-execution in an independent OS process (B: GOMAXPROCS=2, GOGC=1, serialised CheckTx/Recheck/Query/Simulate calls interleaved with probability 0.4 between consensus calls; thorough adds C: race-detector build) compared step by step with process A on AppHash, tx code/codespace/gas/data and the ordered event lists of BeginBlock/DeliverTx/EndBlock; "
+                    "evaluation = one re-execution in an independent OS process (B: GOMAXPROCS=2, GOGC=1, wall clock shifted by +98 days through a time.Now overlay, serialised CheckTx/Recheck/Query/Simulate calls interleaved with probability 0.4 between consensus calls; thorough adds C: race-detector build) compared step by step with process A on AppHash, tx code/codespace/gas/data and the ordered event lists of BeginBlock/DeliverTx/EndBlock; "
                     "non-trivial = distinct (source, message-type set) histories that paid >=3 provers in one reward block or used >=6 message types",
             "samples": samples or [{"note": "none"}],
             "histories": n,
             "steps_compared": compared_steps,
             "executions_per_history": 1 + len(suffixes),
+            "process_B_wall_clock_shifted": clock_shift,
             "race_reports_total": races["total"],
             "race_reports_dependency_only": races["dependency"],
             "race_reports_in_canine_chain": len(races["canine"]),
